@@ -644,6 +644,89 @@ func ruleSIBroles(w *World, r *Report) {
 			"the middleware can require the role \""+role+"\" but HasAccess never tests for it: the request falls through to the namespace test, so any token whose namespaces match (for example \"*\") is accepted on "+role+"-only routes")
 	}
 	r.Ok("SIB-roles", "roles-required-by-middleware", "", fmt.Sprint(len(required))+" role constants reach HasAccess")
+	// every way to answer "true" lies behind the admin bypass (a test of the POLICY's own role) or behind a successful
+	// comparison with one of the policy's namespaces: nothing about the request alone (its namespace being "*", its
+	// required role being read) may grant access — the middleware hands over "*" exactly when it could not determine
+	// the namespace and relies on HasAccess to refuse non-global keys then
+	recvField := func(v ssa.Value, field string) bool {
+		ld, ok := v.(*ssa.UnOp)
+		if !ok || ld.Op != token.MUL {
+			return false
+		}
+		fa, ok := ld.X.(*ssa.FieldAddr)
+		if !ok || len(fn.Params) == 0 || fa.X != ssa.Value(fn.Params[0]) {
+			return false
+		}
+		_, f := structFieldName(fa.X.Type(), fa.Field)
+		return f == field
+	}
+	nsElem := func(v ssa.Value) bool {
+		for _, leaf := range valueRoots(v) {
+			ld, ok := leaf.(*ssa.UnOp)
+			if !ok || ld.Op != token.MUL {
+				continue
+			}
+			if ia, ok := ld.X.(*ssa.IndexAddr); ok && recvField(ia.X, "Namespaces") {
+				return true
+			}
+		}
+		return false
+	}
+	isGrantGuard := func(in ssa.Instruction) bool {
+		bo, ok := in.(*ssa.BinOp)
+		if !ok || bo.Op != token.EQL {
+			return false
+		}
+		if recvField(bo.X, "Role") || recvField(bo.Y, "Role") {
+			if sv, ok := stringOf(bo.Y); ok && sv == "admin" {
+				return true
+			}
+			if sv, ok := stringOf(bo.X); ok && sv == "admin" {
+				return true
+			}
+			return false
+		}
+		return nsElem(bo.X) || nsElem(bo.Y)
+	}
+	var grants []ssa.Instruction
+	for _, b := range fn.Blocks {
+		rt, ok := b.Instrs[len(b.Instrs)-1].(*ssa.Return)
+		if !ok || len(rt.Results) != 1 {
+			continue
+		}
+		var visit func(v ssa.Value, at ssa.Instruction, seen map[ssa.Value]bool)
+		visit = func(v ssa.Value, at ssa.Instruction, seen map[ssa.Value]bool) {
+			if seen[v] {
+				return
+			}
+			seen[v] = true
+			switch x := v.(type) {
+			case *ssa.Const:
+				if x.Value != nil && x.Value.Kind() == constant.Bool && constant.BoolVal(x.Value) {
+					grants = append(grants, at)
+				}
+			case *ssa.Phi:
+				for i, e := range x.Edges {
+					p := x.Block().Preds[i]
+					visit(e, p.Instrs[len(p.Instrs)-1], seen)
+				}
+			default:
+				grants = append(grants, at) // a computed answer: must lie behind a grant guard as well
+			}
+		}
+		visit(retVal(rt, 0), rt, map[ssa.Value]bool{})
+	}
+	for i, g := range grants {
+		gg := g
+		ok, wit := mustPassGuard(fn, func(in ssa.Instruction) bool { return in == gg }, isGrantGuard, func(in ssa.Instruction) ssa.Value { return in.(*ssa.BinOp) }, true, nil)
+		if len(findInstrs(fn, isGrantGuard)) == 0 {
+			ok = false
+		}
+		r.Cond(ok, "SIB-roles", fmt.Sprintf("HasAccess:grant#%d:behind-admin-or-namespace-match", i+1), w.Pos(g.Pos()), "this way of answering true lies behind the admin bypass or a successful comparison with one of the policy's namespaces", "HasAccess can answer true on a path that passed neither the policy-is-admin test nor a successful comparison with one of the policy's namespaces: access is granted on a property of the request alone (for instance target namespace \"*\" with a read requirement), and the middleware passes \"*\" exactly when it could not determine the namespace — a key restricted to one namespace reads what it must not", w.witness(wit)...)
+	}
+	if len(grants) == 0 {
+		r.Und("SIB-roles", "HasAccess:grants", w.Pos(ha.Decl.Pos()), "cannot find how HasAccess answers true")
+	}
 }
 
 // ruleWEBauth: every path of the auth closure to next.ServeHTTP passed the root-token equality, or a successful
